@@ -43,7 +43,12 @@ expected_failing() {
     # the doubling-copy loop moves into the new helper appendMatch: D08/D09 (GenBufPropsDCopy) are proved by
     # induction along the loop functions of WriteMatch/WriteBlock, which no longer exist (notes/robust.md);
     # the other modules are the Gen* modules that import GenBufPropsDCopy (directly or not)
-    B3/patch2) echo "GenBufPropsDCopy GenBufProps GenDecoderProps GenHPHist GenHPHistEx GenHPHistRF GenHPHistRun GenBHPHist GenBHPHistEx GenBHPHistRun" ;;
+    B3/patch2) echo "GenBufPropsDCopy GenBufProps GenDecoderProps GenHPHist GenHPHistEx GenHPHistRF GenHPHistRF2 GenHPHistRun GenBHPHist GenBHPHistEx GenBHPHistRun GenDHPHist GenDHPHistEx GenDHPHistRun GenBDHPHist GenBDHPHistEx GenBDHPHistRun GenC19Hist GenC19HistEx" ;;
+    # ReadFrom rewritten as `for len(b.Data) < b.BufferSize { … return … }` with the window lent WITHOUT a name
+    # (`r.Read(b.Data[len(b.Data):end])`): accepted by the translator (anonymous lent window, code_lend.go), but the loop
+    # function has another state and exit codes; GenPBufReadFrom.loop_step follows the loop function of the current text
+    # (notes/bup-readfrom-translate.md §5); GenHPHistRF2 imports it
+    B3/patch3) echo "GenPBufReadFrom GenHPHistRF2" ;;
     *) echo "" ;;
   esac
 }
